@@ -56,255 +56,264 @@ Definition ex_trace : list (list Z) := [
   [40; 2; 0; 18446744073709551615];
   [31; 1; 1; 0];
   [60; 1; 2; 1];
+  [67; 1; 3; 1];
   [45; 1; 0; 0];
   [2; 1; 300; 0];
-  [61; 3; 3; 94058231357952];
+  [61; 3; 4; 94359169483264];
   [40; 4; 1; 18446744073709551615];
   [41; 2; 0; 1];
   [42; 2; 0; 0];
   [48; 2; 0; 0];
   [49; 2; 0; 1];
-  [62; 2; 4; 1];
-  [61; 3; 3; 94058231357952];
-  [61; 2; 2; 94058231226049];
+  [62; 2; 5; 1];
+  [61; 3; 4; 94359169483264];
+  [61; 2; 2; 94359169351361];
   [50; 2; 0; 0];
   [43; 2; 0; 0];
   [46; 2; 0; 1];
-  [11; 2; 94058231410720; 0];
+  [11; 2; 94359169536032; 0];
   [16; 2; 0; 0];
   [17; 2; 0; 0];
-  [12; 2; 94058231410720; 0];
-  [15; 2; 94058231410720; 0];
-  [13; 2; 94058231410720; 0];
+  [12; 2; 94359169536032; 0];
+  [15; 2; 94359169536032; 0];
+  [13; 2; 94359169536032; 0];
   [46; 2; 0; 0];
   [48; 2; 0; 0];
   [1; 1; 301; 0];
-  [61; 2; 2; 94058231226049];
+  [61; 2; 2; 94359169351361];
   [50; 2; 0; 0];
-  [61; 2; 5; 94058231247808];
+  [61; 2; 6; 94359169373120];
   [44; 2; 0; 18446744073709551615];
   [40; 2; 0; 10000000];
   [31; 1; 1; 1];
-  [60; 1; 6; 1];
+  [60; 1; 7; 1];
+  [67; 1; 8; 1];
   [45; 1; 1; 0];
   [2; 1; 301; 0];
   [41; 4; 1; 1];
   [42; 4; 1; 0];
   [48; 4; 1; 0];
   [49; 4; 1; 1];
-  [62; 4; 7; 1];
-  [61; 4; 6; 94058231228481];
+  [62; 4; 9; 1];
+  [61; 4; 7; 94359169353793];
   [50; 4; 1; 0];
   [43; 4; 1; 0];
   [46; 4; 1; 1];
-  [11; 4; 94058231410720; 0];
+  [11; 4; 94359169536032; 0];
   [16; 4; 0; 0];
   [17; 4; 0; 0];
-  [12; 4; 94058231410720; 0];
-  [15; 4; 94058231410720; 0];
-  [13; 4; 94058231410720; 0];
+  [12; 4; 94359169536032; 0];
+  [15; 4; 94359169536032; 0];
+  [13; 4; 94359169536032; 0];
   [46; 4; 1; 0];
   [48; 4; 1; 0];
-  [61; 4; 6; 94058231228481];
+  [61; 4; 7; 94359169353793];
   [50; 4; 1; 0];
-  [61; 4; 8; 94058231285888];
+  [61; 4; 10; 94359169411200];
   [44; 4; 1; 18446744073709551615];
   [40; 4; 1; 10000000];
   [1; 1; 1; 0];
   [31; 1; 1; 2];
   [60; 1; 2; 1];
+  [67; 1; 11; 1];
   [45; 1; 0; 0];
   [2; 1; 1; 0];
   [41; 2; 0; 1];
   [42; 2; 0; 0];
   [48; 2; 0; 0];
   [49; 2; 0; 1];
-  [62; 2; 4; 2];
-  [61; 2; 2; 94058231226050];
+  [62; 2; 5; 2];
+  [61; 2; 2; 94359169351362];
   [50; 2; 0; 0];
   [43; 2; 0; 0];
   [46; 2; 0; 1];
-  [11; 2; 94058231410720; 0];
+  [11; 2; 94359169536032; 0];
   [16; 2; 0; 0];
   [1; 2; 2; 0];
   [31; 2; 1; 3];
-  [60; 2; 6; 1];
+  [60; 2; 7; 1];
+  [67; 2; 12; 1];
   [45; 2; 1; 0];
   [2; 2; 2; 0];
   [41; 4; 1; 1];
   [42; 4; 1; 0];
   [48; 4; 1; 0];
-  [61; 2; 9; 139924867124864];
+  [61; 2; 13; 140719503183488];
   [49; 4; 1; 1];
-  [62; 4; 7; 2];
-  [61; 4; 6; 94058231228482];
+  [62; 4; 9; 2];
+  [61; 4; 7; 94359169353794];
   [50; 4; 1; 0];
   [43; 4; 1; 0];
   [46; 4; 1; 1];
-  [11; 4; 139924867128128; 0];
+  [11; 4; 140719503186752; 0];
   [16; 4; 0; 0];
-  [60; 4; 9; 1];
-  [12; 2; 94058231410720; 0];
-  [65; 4; 10; 0];
-  [63; 2; 10; 1];
-  [64; 2; 10; 1];
-  [11; 2; 94058231410720; 0];
+  [60; 4; 13; 1];
+  [12; 2; 94359169536032; 0];
+  [67; 4; 14; 1];
+  [65; 4; 15; 0];
+  [63; 2; 15; 1];
+  [64; 2; 15; 1];
+  [11; 2; 94359169536032; 0];
   [17; 4; 0; 0];
-  [12; 4; 139924867128128; 0];
-  [15; 4; 139924867128128; 0];
-  [13; 4; 139924867128128; 0];
+  [12; 4; 140719503186752; 0];
+  [15; 4; 140719503186752; 0];
+  [13; 4; 140719503186752; 0];
   [46; 4; 1; 0];
   [48; 4; 1; 0];
-  [61; 4; 6; 94058231228482];
+  [61; 4; 7; 94359169353794];
   [50; 4; 1; 0];
-  [61; 4; 8; 94058231285888];
+  [61; 4; 10; 94359169411200];
   [44; 4; 1; 18446744073709551615];
   [40; 4; 1; 10000000];
-  [61; 2; 9; 139924867124865];
-  [61; 2; 9; 139924867124865];
+  [61; 2; 13; 140719503183489];
+  [61; 2; 13; 140719503183489];
   [1; 2; 3; 0];
   [31; 2; 1; 4];
   [60; 2; 2; 1];
+  [67; 2; 16; 1];
   [45; 2; 0; 0];
   [2; 2; 3; 0];
-  [12; 2; 94058231410720; 0];
-  [63; 2; 11; 1];
-  [13; 2; 94058231410720; 0];
-  [13; 2; 94058231410720; 0];
+  [12; 2; 94359169536032; 0];
+  [63; 2; 17; 1];
+  [13; 2; 94359169536032; 0];
+  [13; 2; 94359169536032; 0];
   [46; 2; 0; 0];
   [48; 2; 0; 0];
   [49; 2; 0; 1];
-  [62; 2; 4; 3];
-  [61; 2; 2; 94058231226051];
+  [62; 2; 5; 3];
+  [61; 2; 2; 94359169351363];
   [50; 2; 0; 0];
   [46; 2; 0; 1];
-  [11; 2; 139924867128128; 0];
+  [11; 2; 140719503186752; 0];
   [16; 2; 0; 0];
-  [12; 2; 139924867128128; 0];
-  [62; 2; 4; 4];
-  [13; 2; 139924867128128; 0];
+  [12; 2; 140719503186752; 0];
+  [62; 2; 5; 4];
+  [13; 2; 140719503186752; 0];
   [46; 2; 0; 1];
-  [11; 2; 139924867128128; 0];
+  [11; 2; 140719503186752; 0];
   [1; 2; 4; 0];
   [31; 2; 1; 5];
-  [60; 2; 6; 1];
+  [60; 2; 7; 1];
+  [67; 2; 18; 1];
   [45; 2; 1; 0];
   [2; 2; 4; 0];
   [41; 4; 1; 1];
   [42; 4; 1; 0];
   [48; 4; 1; 0];
   [49; 4; 1; 1];
-  [62; 4; 7; 3];
-  [61; 4; 6; 94058231228483];
+  [62; 4; 9; 3];
+  [61; 4; 7; 94359169353795];
   [50; 4; 1; 0];
   [43; 4; 1; 0];
   [46; 4; 1; 1];
-  [11; 4; 139924867125088; 0];
+  [11; 4; 140719503183712; 0];
   [16; 4; 0; 0];
   [1; 4; 5; 0];
   [31; 4; 1; 6];
   [60; 4; 2; 1];
+  [67; 4; 19; 1];
   [45; 4; 0; 0];
   [2; 4; 5; 0];
-  [12; 2; 139924867128128; 0];
-  [61; 4; 12; 139924934233728];
-  [63; 2; 13; 1];
-  [13; 2; 139924867128128; 0];
+  [12; 2; 140719503186752; 0];
+  [61; 4; 20; 140719368965760];
+  [63; 2; 21; 1];
+  [13; 2; 140719503186752; 0];
   [46; 2; 0; 0];
   [48; 2; 0; 0];
   [49; 2; 0; 1];
-  [62; 2; 4; 5];
-  [12; 4; 139924867125088; 0];
-  [61; 2; 2; 94058231226052];
+  [62; 2; 5; 5];
+  [12; 4; 140719503183712; 0];
+  [61; 2; 2; 94359169351364];
   [50; 2; 0; 0];
   [46; 2; 0; 1];
-  [11; 2; 139924934236992; 0];
+  [11; 2; 140719368969024; 0];
   [16; 2; 0; 0];
-  [63; 4; 14; 1];
-  [60; 2; 12; 1];
-  [13; 4; 139924867125088; 0];
+  [63; 4; 22; 1];
+  [60; 2; 20; 1];
+  [67; 2; 23; 1];
+  [13; 4; 140719503183712; 0];
   [46; 4; 1; 0];
   [48; 4; 1; 0];
-  [65; 2; 14; 1];
-  [62; 2; 4; 6];
-  [61; 4; 6; 94058231228483];
+  [65; 2; 22; 1];
+  [62; 2; 5; 6];
+  [61; 4; 7; 94359169353795];
   [50; 4; 1; 0];
   [47; 4; 1; 0];
-  [11; 4; 139924867125088; 0];
+  [11; 4; 140719503183712; 0];
   [17; 2; 0; 0];
-  [12; 2; 139924934236992; 0];
-  [15; 2; 139924934236992; 0];
-  [13; 2; 139924934236992; 0];
+  [12; 2; 140719368969024; 0];
+  [15; 2; 140719368969024; 0];
+  [13; 2; 140719368969024; 0];
   [46; 2; 0; 0];
   [48; 2; 0; 0];
-  [61; 2; 2; 94058231226052];
+  [61; 2; 2; 94359169351364];
   [50; 2; 0; 0];
-  [61; 2; 5; 94058231247808];
+  [61; 2; 6; 94359169373120];
   [44; 2; 0; 18446744073709551615];
   [41; 2; 0; 1];
   [42; 2; 0; 0];
   [48; 2; 0; 0];
-  [61; 2; 2; 94058231226052];
+  [61; 2; 2; 94359169351364];
   [50; 2; 0; 0];
   [43; 2; 0; 0];
   [46; 2; 0; 0];
   [48; 2; 0; 0];
-  [61; 2; 2; 94058231226052];
+  [61; 2; 2; 94359169351364];
   [50; 2; 0; 0];
-  [61; 2; 5; 94058231247808];
+  [61; 2; 6; 94359169373120];
   [44; 2; 0; 18446744073709551615];
   [40; 2; 0; 10000000];
   [41; 2; 0; 0];
   [43; 2; 0; 0];
   [46; 2; 0; 0];
   [48; 2; 0; 0];
-  [61; 2; 2; 94058231226052];
+  [61; 2; 2; 94359169351364];
   [50; 2; 0; 0];
-  [61; 2; 5; 94058231247808];
+  [61; 2; 6; 94359169373120];
   [44; 2; 0; 18446744073709551615];
   [40; 2; 0; 10000000];
-  [61; 4; 12; 139924934233729];
-  [61; 4; 12; 139924934233729];
-  [12; 4; 139924867125088; 0];
-  [62; 4; 7; 4];
-  [13; 4; 139924867125088; 0];
+  [61; 4; 20; 140719368965761];
+  [61; 4; 20; 140719368965761];
+  [12; 4; 140719503183712; 0];
+  [62; 4; 9; 4];
+  [13; 4; 140719503183712; 0];
   [46; 4; 1; 1];
-  [11; 4; 139924867125088; 0];
-  [12; 4; 139924867125088; 0];
-  [62; 4; 7; 5];
-  [13; 4; 139924867125088; 0];
+  [11; 4; 140719503183712; 0];
+  [12; 4; 140719503183712; 0];
+  [62; 4; 9; 5];
+  [13; 4; 140719503183712; 0];
   [46; 4; 1; 1];
-  [11; 4; 139924867125088; 0];
-  [12; 4; 139924867125088; 0];
-  [62; 4; 7; 6];
-  [13; 4; 139924867125088; 0];
+  [11; 4; 140719503183712; 0];
+  [12; 4; 140719503183712; 0];
+  [62; 4; 9; 6];
+  [13; 4; 140719503183712; 0];
   [46; 4; 1; 1];
-  [11; 4; 139924867125088; 0];
+  [11; 4; 140719503183712; 0];
   [17; 4; 0; 0];
-  [65; 4; 13; 1];
-  [62; 4; 7; 7];
-  [12; 4; 139924867125088; 0];
-  [15; 4; 139924867125088; 0];
-  [13; 4; 139924867125088; 0];
+  [65; 4; 21; 1];
+  [62; 4; 9; 7];
+  [12; 4; 140719503183712; 0];
+  [15; 4; 140719503183712; 0];
+  [13; 4; 140719503183712; 0];
   [46; 4; 1; 1];
-  [11; 4; 139924867128128; 0];
+  [11; 4; 140719503186752; 0];
   [17; 4; 0; 0];
-  [65; 4; 11; 1];
-  [62; 4; 7; 8];
-  [12; 4; 139924867128128; 0];
-  [15; 4; 139924867128128; 0];
-  [13; 4; 139924867128128; 0];
+  [65; 4; 17; 1];
+  [62; 4; 9; 8];
+  [12; 4; 140719503186752; 0];
+  [15; 4; 140719503186752; 0];
+  [13; 4; 140719503186752; 0];
   [46; 4; 1; 1];
-  [11; 4; 94058231410720; 0];
+  [11; 4; 94359169536032; 0];
   [17; 4; 0; 0];
-  [12; 4; 94058231410720; 0];
-  [15; 4; 94058231410720; 0];
-  [13; 4; 94058231410720; 0];
+  [12; 4; 94359169536032; 0];
+  [15; 4; 94359169536032; 0];
+  [13; 4; 94359169536032; 0];
   [46; 4; 1; 0];
   [48; 4; 1; 0];
-  [61; 4; 6; 94058231228483];
+  [61; 4; 7; 94359169353795];
   [50; 4; 1; 0];
-  [61; 4; 8; 94058231285888];
+  [61; 4; 10; 94359169411200];
   [44; 4; 1; 18446744073709551615];
   [40; 4; 1; 10000000]]%Z.
 
@@ -329,13 +338,18 @@ Qed.
 
 (* the acceptor rejects: the same run with the eventfd write of the first spawn moved in front of its push *)
 Definition is_push (e : list Z) : bool := match e with [60; _; _; 1] => true | _ => false end%Z.
+Definition is_ready (e : list Z) : bool := match e with [67; _; _; _] => true | _ => false end%Z.
 Definition is_wakeup (e : list Z) : bool := match e with [45; _; _; _] => true | _ => false end%Z.
+(* the first  push-CAS, ready store, eventfd write  of the trace becomes  eventfd write, push-CAS, ready store *)
 Fixpoint swap_push_wake (l : list (list Z)) : list (list Z) :=
   match l with
   | p :: r => match r with
-              | w :: r' => if is_push p && is_wakeup w then w :: p :: r' else p :: swap_push_wake r
-              | [] => [p] end
+              | q :: w :: r' => if is_push p && is_ready q && is_wakeup w then w :: p :: q :: r' else p :: swap_push_wake r
+              | _ => p :: swap_push_wake r end
   | [] => [] end.
+
+Lemma ex_trace_swap_differs : swap_push_wake ex_trace <> ex_trace.
+Proof. vm_compute. discriminate. Qed.
 
 Lemma ex_trace_wake_before_push_rejected : accept_all m_init (swap_push_wake ex_trace) = None.
 Proof. vm_compute. reflexivity. Qed.
